@@ -407,6 +407,12 @@ def run(prog, check):
         b13 = Borrowed(check, lambda rule, key: rule == 'C13.R1' and any(('::%s::' % r_) in key for r_ in renamers_), 'C02.R7',
                        'inc = wage next to inc_tax = 0.2*inc: substituting inc must leave inc_tax alone')
         _c13.run(prog, b13)
+    # ---- R8: the stand-alone solver the package generates stops on the same terms (template clauses of C20.R2 / C20.R4) ------------
+    if not getattr(check, '_borrowing', False):
+        from . import C20 as _c20
+        b20 = Borrowed(check, lambda rule, key: rule in ('C20.R2', 'C20.R4') and '::template-' in key, 'C02.R8',
+                       'a generated module run on a simultaneous block: its stored values must satisfy the equations')
+        _c20.run(prog, b20)
     check.floor('C02.R6', 2)
     check.floor('C02.R1', 2)
     check.floor('C02.R2', 4)
